@@ -299,7 +299,7 @@ func checkELF(c *elfCase, o *vk.Obs) []string {
 		if got != a-c.Bias {
 			// recorded finding: the kernel-image heuristic (segment vaddr == mapping start - offset) also
 			// matches a user-space PIE whose load bias happens to equal the segment's page-aligned file offset
-			if c.Dyn && start-offset == chosenVaddr(c, a, start, offset) && vk.Known("C13-kernel-heuristic-collision") {
+			if c.Dyn && kernelHeuristicHit(c, a, start, offset) && vk.Known("C13-kernel-heuristic-collision") {
 				o.Exclude("C13-kernel-heuristic-collision")
 				continue
 			}
@@ -311,14 +311,17 @@ func checkELF(c *elfCase, o *vk.Obs) []string {
 
 // chosenVaddr returns the vaddr of the segment whose file range contains the address's file offset
 // (the one pprof would pick), or of the target segment.
-func chosenVaddr(c *elfCase, a, start, offset uint64) uint64 {
+// kernelHeuristicHit: some segment whose file pages hold the address's file offset has p_vaddr equal to
+// mapping start minus mapping offset - the condition under which GetBase takes the file for a kernel image.
+func kernelHeuristicHit(c *elfCase, a, start, offset uint64) bool {
 	fo := a - start + offset
 	for _, s := range c.Segs {
-		if fo >= s.Off && fo < s.Off+s.Memsz {
-			return s.Vaddr
+		lo, hi := s.Off&^0xfff, (s.Off+s.Filesz+0xfff)&^0xfff
+		if s.Filesz > 0 && fo >= lo && fo < hi && s.Vaddr == start-offset {
+			return true
 		}
 	}
-	return c.Segs[c.Target].Vaddr
+	return c.Segs[c.Target].Vaddr == start-offset
 }
 
 func TestPropObjAddr(t *testing.T) {
